@@ -7,6 +7,7 @@
 From Coq Require Import NArith Bool List QArith.
 From Flocq Require IEEE754.BinarySingleNaN.
 From TV Require Import Num.Num Num.QNum Num.F32 Gen.CacheGen Model.Cache Proofs.CacheProofs Proofs.CacheF32.
+From TV Require Model.Engine Model.EngineReal Proofs.EngineReal.
 Import ListNotations.
 
 Section AnyNum.
@@ -169,6 +170,34 @@ Example C02_example_epsilon_F32 :
   roughly (f_of_bits 0x7f800000) (f_of_bits 0x7f800000) = false.
 Proof. vm_compute. repeat split; reflexivity. Qed.
 
+(* The cache the ENGINE model runs with (wave 6c: Model/EngineReal.v `rcache`, the cache of `memo_real`, which the whole-tree
+   correspondence `vh blocktree cases .. real` compares with TaffyTree::compute_layout_with_measure without the exact-key hook, layouts
+   and query / hit / measure counts) IS this file's cache: its entries carry the complete LayoutInput / LayoutOutput they were stored
+   with as ghost state; erasing the ghost state (`erase`: keep (known_dimensions, available_space) = `key_of` of the input and the size
+   + an opaque payload `pl` of the output) commutes with get / store / clear / is_empty of Model/Cache.v, for every projection
+   `key_of`, every run mode of the input, provided from_outer_size keeps the size and has the default payload 0.  So the theorems
+   above speak about the cache inside the engine. *)
+Theorem C02_engine_cache_is_this_cache :
+  forall (T : Type) (NT : Num T) (In Out : Type) (mode : In -> TV.Model.Engine.RunMode) (key_of : In -> key T)
+         (osize : Out -> size T) (from_outer : size T -> Out) (pl : Out -> N),
+    (forall s, osize (from_outer s) = s) -> (forall s, pl (from_outer s) = 0%N) ->
+    forall (c : TV.Model.EngineReal.rcache In Out) (i : In) (o : Out),
+      let E := TV.Model.EngineReal.erase In Out key_of osize pl in
+      let m := TV.Model.EngineReal.cmode (mode i) in
+      option_map (TV.Model.EngineReal.eout Out osize pl) (TV.Model.EngineReal.rget In Out mode key_of osize from_outer c i)
+        = get (E c) (key_of i) m /\
+      E (TV.Model.EngineReal.rstore In Out mode key_of c i o) = store (E c) (key_of i) m (TV.Model.EngineReal.eout Out osize pl o) /\
+      E (TV.Model.EngineReal.rclear In Out c) = fst (clear (E c)) /\
+      TV.Model.EngineReal.rdirty In Out c = is_empty (E c) /\
+      E (TV.Model.EngineReal.rnew In Out) = new.
+Proof.
+  intros T NT In Out mode key_of osize from_outer pl H1 H2 c i o. cbv zeta.
+  split; [apply TV.Proofs.EngineReal.real_get_erase; assumption|].
+  split; [apply TV.Proofs.EngineReal.real_store_erase|].
+  split; [apply TV.Proofs.EngineReal.real_clear_erase|].
+  split; [apply TV.Proofs.EngineReal.real_dirty_erase|reflexivity].
+Qed.
+
 Print Assumptions C02_get_sound.
 Print Assumptions C02_compat_meaning.
 Print Assumptions C02_entries_from_stores.
@@ -183,3 +212,4 @@ Print Assumptions C02_store_hit_F32.
 Print Assumptions C02_hit_persists_F32.
 Print Assumptions C02_slot_lt_9.
 Print Assumptions C02_slot_separates.
+Print Assumptions C02_engine_cache_is_this_cache.
